@@ -47,7 +47,7 @@ type c15Shape struct {
 
 type c15Load struct {
 	Limit  int    `json:"limit"`  // effective limit
-	Via    string `json:"via"`    // call | maxhistory
+	Via    string `json:"via"`    // call | maxhistory | inplace (Load(-1) first, then the limited Load on the same handle)
 	Amount int    `json:"amount"` // argument of Load (== Limit for via=call, <= 0 for via=maxhistory)
 	Probe  bool   `json:"probe"`  // also ask the fetcher directly (NewFromEntryHash) per head
 }
@@ -288,6 +288,14 @@ func c15RunScen(sc c15Scen) error {
 				res.Probes = append(res.Probes, c15Probe{Head: h, Fetched: s.Canon.HashIDs(l.Values().Slice())})
 			}
 		}
+		if ld.Via == "inplace" {
+			if err := st2.Load(ctx, -1); err != nil {
+				return fmt.Errorf("unlimited load before the load in place: %w", err)
+			}
+			if !sim.Settle(ctx, s.Env, 20*time.Second, 1, st2) {
+				return fmt.Errorf("unlimited load before the load in place did not settle")
+			}
+		}
 		api := s.Reps[0].API
 		g0 := len(api.GetLog)
 		errc := make(chan error, 1)
@@ -462,6 +470,17 @@ func c15Plan(r *Run) []c15Scen {
 		}
 		for _, n := range mh {
 			sc.Loads = append(sc.Loads, c15Load{Limit: n, Via: "maxhistory", Amount: -r.Rng.Intn(2)})
+		}
+		// a limited load on a handle that ALREADY holds the whole log (it was loaded without a
+		// limit first): the handle shows the most recent entries just the same
+		if total >= 2 {
+			ip := []int{1, total - 1, total, total + 1}
+			if total >= 4 {
+				ip = append(ip, 2+r.Rng.Intn(total-2))
+			}
+			for _, n := range ip {
+				sc.Loads = append(sc.Loads, c15Load{Limit: n, Via: "inplace", Amount: n})
+			}
 		}
 		plan = append(plan, sc)
 	}
